@@ -224,6 +224,11 @@ def soil_evaporation(
         # Calculate potential soil evaporation (given current canopy cover
         # size)
         EsPot = Soil_Kex * (1 - NewCond_CCadj) * et0
+        # The canopy cover adjusted for micro-advection exceeds 1 once the canopy
+        # cover is above ~0.967 (crops with CCx > 0.96): potential soil evaporation
+        # cannot become negative
+        if EsPot < 0:
+            EsPot = 0
 
         # Adjust potential soil evaporation for effects of withered canopy
         if (tAdj > Crop_Senescence) and (NewCond_CCxAct > 0):
